@@ -1,4 +1,5 @@
 import BornoModel.Eval
+import BornoModel.Lemmas.EvalInv
 /-! # C04 — calls bind arguments by position, return exactly; closures own captured state -/
 namespace Borno.Props.C04
 open Borno
@@ -109,6 +110,17 @@ theorem declaration_captures_current_scope (f : Nat) (name : Name) (ps : List Na
       have he : env ≠ σ.envs.length := by omega
       simp [List.getElem?_set, he]
     · simp
+
+/-- **a function value keeps what it captured**: across any evaluation a closure keeps its declaration
+    and the scope it captured, and that scope keeps its place in the chain and all its names — the
+    captured variables stay alive after the declaring scope has finished -/
+theorem closure_keeps_captured_scope (f : Nat) (s : Stmt) (env : Nat) (repl : Bool) (σ σ' : Store) (r : Val × Signal)
+    (h : evalS P f s env repl σ = .ok r σ') (id : Nat) (cl : Closure) (hcl : σ.funs[id]? = some cl)
+    (fr : Frame) (hfr : σ.envs[cl.env]? = some fr) :
+    σ'.funs[id]? = some cl ∧ ∃ fr', σ'.envs[cl.env]? = some fr' ∧ fr'.parent = fr.parent ∧
+      ∀ n, (fr.vars.lookup n).isSome = true → (fr'.vars.lookup n).isSome = true := by
+  have := (allSat P f).s s env repl σ; rw [h] at this
+  exact ⟨this.funs_keep id cl hcl, this.env_keep _ fr hfr⟩
 
 end
 end Borno.Props.C04
